@@ -264,6 +264,13 @@ func runRoundTrip() int {
 					outcome = oc
 					// successful blob verification returns the descriptor of the blob that was verified
 					obs.RetDescOK = desc.Digest == wantTarget.Digest && desc.Size == wantTarget.Size && desc.MediaType == cmt
+					// the caller decorates the descriptor it was handed: its own business, the outcome does not change
+					for k := range desc.Annotations {
+						desc.Annotations[k] = "changed by the caller"
+					}
+					if desc.Annotations != nil {
+						desc.Annotations["added.by/caller"] = "yes"
+					}
 				}
 			}
 			if outcome != nil && outcome.EnvelopeContent != nil {
@@ -282,8 +289,19 @@ func runRoundTrip() int {
 					obs.PayloadOK = false // the countersignature must be there (and was demanded by the policy)
 				}
 				um, uerr := outcome.UserMetadata()
-				// the metadata read back is exactly the signed annotations (user metadata included)
+				// the metadata read back is exactly the signed annotations (user metadata included) ...
 				obs.MetaOK = uerr == nil && mapsEqual(um, wantTarget.Annotations)
+				// ... every time it is read, whatever the caller did to the map it got before
+				for k := range um {
+					um[k] = "changed by the caller"
+				}
+				if um != nil {
+					um["added.by/caller"] = "yes"
+				}
+				um2, uerr2 := outcome.UserMetadata()
+				if uerr2 != nil || !mapsEqual(um2, wantTarget.Annotations) {
+					obs.MetaOK = false
+				}
 			}
 		})
 		if panicked {
